@@ -1428,6 +1428,10 @@ func (s *BgpServer) processRTCMembership(peer *peer, path *table.Path) {
 				if peer.interestedIn(p) {
 					continue
 				}
+				if !p.IsWithdraw {
+					// the wildcard scan hands over the routes themselves
+					p = p.Clone(true)
+				}
 				withdrawn = append(withdrawn, p)
 			}
 			if len(withdrawn) > 0 {
